@@ -29,6 +29,16 @@ def outcomes(P, q, gen):
             continue
         seen.add(label)
         r = mk()
+        if r and r[0] == 'METHOD':
+            # the scenario names another method of the same class (a thin public wrapper around the analysed function)
+            _, mname, args, kwargs, opts = r
+            fm = P.functions.get(q.rsplit('.', 1)[0] + '.' + mname)
+            if fm is None:
+                from .scenario import Outcome
+                out.append((label, Outcome('undecided', 'method %s no longer exists' % mname)))
+                continue
+            out.append((label, run_scenario(P, fm, args, kwargs, **opts)))
+            continue
         args, kwargs = r[0], r[1]
         opts = r[2] if len(r) > 2 else {}
         out.append((label, run_scenario(P, fi, args, kwargs, **opts)))
